@@ -94,6 +94,16 @@ def search(S):
                         -np.sum(l * np.cos(th) * T) + p[17] * wv[1] * p[20] * np.sum(l),
                         -p[15] * np.sum(d * T) + p[18] * wv[2] * p[20] * np.sum(l)])
         S.check("quad.f", "moment", inp, H.close(lhs, rhs, 1e-8), rhs.tolist(), lhs.tolist(), "J wdot + w x Jw != sum over rotors")
+        # the same wrench identity on a general frame: unequal arm lengths, arbitrary arm angles, arbitrary spin directions
+        pg = p.copy()
+        pg[6:10] = rng.uniform(0.1, 0.5, 4); pg[10:14] = rng.uniform(-np.pi, np.pi, 4); pg[2:6] = rng.choice([-1.0, 1.0], 4)
+        xdg = np.array(f(x, u, pg)).flatten()
+        lhs = J * xdg[10:13] + np.cross(wv, J * wv)
+        l, th, d = pg[6:10], pg[10:14], pg[2:6]
+        rhs = np.array([np.sum(l * np.sin(th) * T) + pg[16] * wv[0] * pg[20] * np.sum(l),
+                        -np.sum(l * np.cos(th) * T) + pg[17] * wv[1] * pg[20] * np.sum(l),
+                        -pg[15] * np.sum(d * T) + pg[18] * wv[2] * pg[20] * np.sum(l)])
+        S.check("quad.f", "moment_general_frame", {"x": x.tolist(), "u": u.tolist(), "p": pg.tolist()}, H.close(lhs, rhs, 1e-8), rhs.tolist(), lhs.tolist(), "J wdot + w x Jw != sum over rotors on a frame with unequal arms / arbitrary geometry")
 
 
-H.run(search, "random unit-quaternion states (above and below ground), rotor speeds/commands in [0,1500], default and randomised parameter vectors; distinct = distinct (unit, input)")
+H.run(search, "random unit-quaternion states (above and below ground), rotor speeds/commands in [0,1500], default and randomised parameter vectors, plus frames with unequal arm lengths, arbitrary arm angles and spin directions for the wrench identity; distinct = distinct (unit, input)")
